@@ -71,7 +71,8 @@ Record Inv (s : st) : Prop := mkInv {
   w_fwd : forall r m, rin s r = true -> sto s r m <> q0 -> min s m = true /\ back s m r = true;
   w_back : forall m r, back s m r = true -> min s m = true /\ rin s r = true /\ sto s r m <> q0;
   u_mets : forall r m, sto s r m <> q0 -> In m (mids s);
-  u_rxns : forall m r, back s m r = true -> In r (rids s)
+  u_rxns : forall m r, back s m r = true -> In r (rids s);
+  u_rin : forall r, rin s r = true -> In r (rids s)
 }.
 
 (* the solver problem part alone (what C01 states), and the cross references alone (C02) *)
@@ -88,9 +89,9 @@ Definition WF (s : st) : Prop :=
   (forall m r, back s m r = true -> min s m = true /\ rin s r = true /\ sto s r m <> q0).
 
 Lemma Inv_LPSync s : Inv s -> LPSync s.
-Proof. intros [A B C D E _ _ _ _]. repeat split; try apply A; try apply C; try apply D; try apply E; auto. Qed.
+Proof. intros [A B C D E _ _ _ _ _]. repeat split; try apply A; try apply C; try apply D; try apply E; auto. Qed.
 Lemma Inv_WF s : Inv s -> WF s.
-Proof. intros [_ _ _ _ _ A B _ _]. split; assumption. Qed.
+Proof. intros [_ _ _ _ _ A B _ _ _]. split; assumption. Qed.
 
 Lemma init_Inv : Inv init.
 Proof.
@@ -100,6 +101,6 @@ Qed.
 
 (* the context stack plays no role in the invariant *)
 Lemma Inv_ctx s c : Inv s -> Inv (set_ctx s c).
-Proof. intros [A B C D E G H I J]. constructor; cbn; assumption. Qed.
+Proof. intros [A B C D E G H I J K]. constructor; cbn; assumption. Qed.
 Lemma Inv_record s u : Inv s -> Inv (record u s).
 Proof. intros H. unfold record. destruct (ctx s); [exact H|apply Inv_ctx, H]. Qed.
